@@ -104,7 +104,23 @@ pub fn finite_calls(s: &SPDC, variant: usize) -> Value {
       let o = s.clone().try_as_optimum().ok()?;
       Some(*(o.joint_spectrum(integ).jsi(o.signal.frequency(), o.idler.frequency()) / JSIUnits::new(1.)) == 0.)
     }).ok().flatten();
+    // intermediate quantities of the JSA at the setup's own centre, through public accessors, in the order the code computes them:
+    // which one is the first that is not finite?
+    let first_nonfinite = {
+      let te_s = *(s.signal.theta_external(&s.crystal_setup) / RAD);
+      let te_i = *(s.idler.theta_external(&s.crystal_setup) / RAD);
+      let dk = *(delta_k(ws0, wi0, &s.signal, &s.idler, &s.pump, &s.crystal_setup, &s.pp) * M / RAD);
+      let alpha = pump_spectral_amplitude(ws0 + wi0, s);
+      let integrand = get_pm_integrand(ws0, wi0, s)(0.);
+      if !te_s.is_finite() { "signal_external_angle" }
+      else if !te_i.is_finite() { "idler_external_angle" }
+      else if !(dk.x.is_finite() && dk.y.is_finite() && dk.z.is_finite()) { "delta_k" }
+      else if !alpha.is_finite() { "pump_spectral_amplitude" }
+      else if !(integrand.re.is_finite() && integrand.im.is_finite()) { "phasematch_integrand" }
+      else { "none" }
+    };
     json!({"class": "ok", "inside_window": inside, "nonfinite": bad, "normalized_nonfinite": bad_norm, "jsa_all_zero": jsa_all_zero,
+           "first_nonfinite": first_nonfinite,
            "reference_zero": reference_zero, "variant": variant, "grid": npts, "cc": fx(cc), "cs": fx(cs), "ci": fx(ci)})
   });
   match r {
@@ -297,6 +313,10 @@ pub fn corpus() -> Vec<(&'static str, Value)> {
       "pump": {"average_power_mw": 5.20792, "bandwidth_nm": 0.132943, "waist_um": 174.77, "wavelength_nm": 226.047},
       "signal": {"phi_deg": -270.44, "theta_deg": 233.876, "waist_position_um": "auto", "waist_um": 200.76, "wavelength_nm": 452.095}
     })),
+    ("idler_external_95deg", base(1550., 775., json!(90), Value::Null,
+        json!({"wavelength_nm": 1550, "phi_deg": 180, "theta_external_deg": 95, "waist_um": 100}), 0.)),
+    ("idler_external_minus_270deg:pp_auto", base(1550., 775., json!(90), ppa.clone(),
+        json!({"wavelength_nm": 1550, "phi_deg": 180, "theta_external_deg": -270, "waist_um": 100}), 0.)),
     ("signal_80deg:pp_auto", base(1550., 775., json!(90), ppa.clone(), json!("auto"), 80.)),
     ("zero_period", base(1550., 775., json!(90), json!({"poling_period_um": 0.0}), json!("auto"), 0.)),
     ("auto_theta_with_poling", base(1550., 775., json!("auto"), ppe.clone(), json!("auto"), 0.)),
